@@ -12,7 +12,7 @@ claim("C01",
       "the exact per-status effect of addTaskResources/removeTaskResources/AddTask/RemoveTask/UpdateTask on Idle/Used/Releasing (mirror images of each other), "
       "checkMaxPodsWithGpuGroupReservation (exact), the statement/commit pieces in framework; the snapshot constructors (NewNodeInfo: Idle == Allocatable and nothing used; AddTasksToNode: only occupying pods are "
       "recorded, exact effect of one pod; getNodeToPodInfosMap), the GPU folds GetDraGpusCount/GetGpusQuota/GetTotalGPURequest as verified finite sums, the Session dispatch wrappers (FittingNode: every registered "
-      "predicate is consulted and the CPU/memory and whole-GPU gates hold) verified instead of trusted. Right level: the property is an invariant preserved by each decision; each link (check, charge, undo) is a universally quantified function contract.",
+      "predicate is consulted and the CPU/memory and whole-GPU gates hold) verified instead of trusted. Right level: the property is an invariant preserved by each decision; each link (check, charge, undo) is a universally quantified function contract. Session-3 late: the pod request itself - getPodResourceRequest == max(regular containers, every init container) + RuntimeClass overhead, for cpu and memory (the per-list amounts are named, not computed).",
       BASE + "Not decided: that every path from an action to Cache.Bind goes through Statement (call-graph fact), storage capacity (isTaskStorageAllocatable trusted), "
       "NodeInv as a sum over pods (effects are proved per operation; the closed sum needs ownership/separation invariants over the pods' resource objects and is not mechanised), "
       "addTasksToNodes/Snapshot as a whole (AddTask's precondition vecWF - node vectors as long as the shared layout - is stronger than what the snapshot establishes; replayed, the code is fine), multi-cycle histories beyond the per-step contracts.",
@@ -42,7 +42,7 @@ claim("C04",
       "the WIRING of the upstream filters (NewSessionPredicates: all eight table entries present, taints / node affinity / pod affinity / host ports / volume binding / DRA required for EVERY pod, each entry wired to its own plugin), "
       "evaluateTaskOnPrePredicate (passes iff no required pre-filter fails) and evaluateTaskOnPredicates (every required filter passed, node ready and schedulable, max-pods and capacity gates), the ConfigMap and MaxNodePoolResources predicates, "
       "isNodePartOfTopology (exact), getJobTopology, calcDomainId, lowestCommonDomainID, subSetNodesFn (child node sets within the parent's), GetAllPodSets (covers exactly the pod sets below a sub-group set) and the precondition of "
-      "Session.SubsetNodesFn that it is handed ALL pod sets of the sub-group it subsets for (so the domain pin of already active sibling pods is not lost).",
+      "Session.SubsetNodesFn that it is handed ALL pod sets of the sub-group it subsets for (so the domain pin of already active sibling pods is not lost). Session-3 late: (*K8sNodePodAffinityInfo).AddPod/RemovePod refresh the inter-pod (anti-)affinity index AFTER the node's pod list changed (ghost versions).",
       BASE + "Assumed (not verified): the upstream kube-scheduler filters themselves (NodeAffinity, TaintToleration, InterPodAffinity, NodePorts ...: named verdicts of type: contracts); the node-pool label selector of the listers; "
       "`trust [subsetsOfParent]` on Session.SubsetNodesFn (the nested index invariant through the spread append was not robustly provable). "
       "Not decided: evaluateTaskOnPredicates as an iff (PredicateByNodeResourcesType has no contract), in-session pod-affinity state beyond the podaffinity plugin's mirror. "
@@ -53,7 +53,7 @@ claim("C05",
       "Proof, for all inputs, that the listed gates do not reject the cases the property promises to serve (converse directions of the C01/C06/C07 contracts): IsTaskAllocatable(+OnReleasingOrIdle) completeness side, "
       "common.FeasibleNodesForJob (a node with idle or releasing GPU capacity is kept), Reclaimable.CanReclaimResources (iff), FitsReclaimStrategy [starvedReclaimerServed], buildFilterFuncForPreempt$1 [eligibleAccepted]; "
       "the Execute loops of preempt/reclaim/consolidation/allocate: a popped job is skipped without an attempt only because a job OF ITS OWN QUEUE (cluster-wide only where the failure reason is queue-independent) with a not-larger footprint "
-      "failed before in this action ([perQueueScope], scopeOK preconditions of IsEasierToSchedule/UpdateRepresentative), and the order is drained ([orderDrained]).",
+      "failed before in this action ([perQueueScope], scopeOK preconditions of IsEasierToSchedule/UpdateRepresentative), and the order is drained ([orderDrained]). Session-3 late: the topology pre-job hook leaves no node-score map of an earlier job ([noScoreOfAnEarlierJobSurvives]).",
       BASE + "Explicitly NOT decided: that the solver visits every node and victim set (progress inside JobSolver.Solve), the idle_gpus accumulated filter. Candidate finding (not mechanised): jobEasierToScheduleComparison skips jobs whose request is incomparable to the recorded failure.",
       "DESIGN.md 2/C05")
 
@@ -97,7 +97,7 @@ claim("C10",
       "Proof, for all inputs, of termination and panic-freedom of the listed consumers of API data: the queue graph (snapshotQueues, updateQueueChildren, cleanQueueOrphans, queueReachesRoot terminates on every map, cleanQueueCycles, "
       "UpdateQueueHierarchy ensures [noSelfParent][noTwoCycle][rooted][parentsPresent]...), every parent-chain loop under contract with a decreases clause, sub-group factory total for ANY Spec.SubGroups, "
       "pod annotation parsing (ieee for NaN/Inf), the snapshot functions of cluster_info (pods naming unknown nodes/queues/pod groups), InitializeWithJobs/PushJob (a job whose queue is missing is never pushed), the jobs-order and priority-queue code, "
-      "the action loops (nil job, nil statement), no-panic obligations of every unit tagged C10.",
+      "the action loops (nil job, nil statement), no-panic obligations of every unit tagged C10. Session-3 late: the scenario-builder constructor chain (NewPodAccumulatedScenarioBuilder, NewNodeAffinitiesFilter, NewTopologyAwareIdleGpusFilter, NewIdleGpusFilter) is verified no-panic for every input including a nil scenario - a genuine nil-pointer panic of the preempt/reclaim/consolidation solvers was found there and fixed (94e48d9).",
       BASE + "Not decided: termination of Execute as a whole, panics outside the functions under contract (evidence lists the units; `nopanic off` units are listed as assumptions), the liveness clause ('untouched workloads are still scheduled'), "
       "the link between UpdateQueueHierarchy/ensures[rooted] and the ranking preconditions of the consumers (two ghost encodings). Known undecided candidates: idle_gpus insert on an empty list, NewIdleGpusFilter(nil), pod groups of the same name in two namespaces.",
       "DESIGN.md 2/C10")
@@ -114,7 +114,7 @@ claim("C11",
 claim("C12",
       "Proof, for all inputs, of both sides of the hand-off: IsFailed (functional), GetBindRequestForPod (nil <==> absent or failed), getTaskStatus (pending + live bind request ==> Binding), snapshotBindRequests partition, "
       "the snapshot side: getNodeToPodInfosMap (a listed task is Binding on SelectedNode with SelectedGPUGroups iff a live BindRequest exists, else Pending under no node), NewTaskInfoWithBindRequest, resourceClaimInfoFromPodClaims (the devices promised in the BindRequest are carried), "
-      "updatePodAdditionalFields (live BindRequest groups win), UpdateStatus (retry counter persisted on every failed attempt, phases persisted, attempts never decrease, terminal failure not retried, one write iff status changed).",
+      "updatePodAdditionalFields (live BindRequest groups win), UpdateStatus (retry counter persisted on every failed attempt, phases persisted, attempts never decrease, terminal failure not retried, one write iff status changed). Session-3 late: createBindRequest stamps the node-pool label exactly when the scheduler's own selector asks for it (key and value set) and always the selected-node label (ghost state of the generated client); GetLabels verified.",
       BASE + "Assumed: the status writer persists what it is handed unless it reports an error (persistence keyed on resourceVersion, fault oracle statusPatchFails), DataLister.List* read-only. "
       "Not decided: interleavings of scheduler cycles with binder reconciles as a history (the induction over reconciles is not mechanised), RequeueAfter = 2^attempts only as >= 1 s, addTasksToNodes/Snapshot as a whole.",
       "DESIGN.md 2/C12")
@@ -172,7 +172,7 @@ claim("C19",
 claim("C20",
       "Proof, for all inputs, of the aggregation steps AND of the list folds as closed-form finite sums: getStatusWithMetadata, isActivePod/isAllocatedPod/isPodScheduled, AddPodMetadata, SumResources; calculatePodGroupMetadata "
       "(Requested[r] / Allocated[r] == the sum over the listed pods of the per-pod amount under the phase guard, for every resource name; error ==> no metadata), queue controller sumChildQueueResources / sumPodGroupsResources / "
-      "ResourceUpdater.UpdateQueue (status == children sum + pod-group sum: the per-level equation of the hierarchy), ChildQueuesUpdater.UpdateQueue.",
+      "ResourceUpdater.UpdateQueue (status == children sum + pod-group sum: the per-level equation of the hierarchy), ChildQueuesUpdater.UpdateQueue. Session-3 late: IsPreemptible is no longer trusted - the priority resolution order (named class, else global default, else system default; look-up failures are errors) is verified in getPodGroupPriority.",
       BASE + "Assumed: resource.Quantity as a Real value, per-pod amounts named by trust clauses on GetPodMetadata (client reads: determinism assumed), client.List decodes into fresh memory. "
       "Not decided: ShouldUpdatePodGroupStatus boolean (reflect.DeepEqual), the patch diff, key sets of the result maps, both Reconcile functions, the induction over hierarchy levels, the operator's Deploy fixpoint.",
       "DESIGN.md 2/C20")
